@@ -534,6 +534,8 @@ def run_slots(repo, R):
 
 
 def run(repo, R):
+    from .momfam import compose_state_rules as _csr
+    _csr(R, repo, ['gbasis/evals/eval.py', 'gbasis/evals/eval_deriv.py', 'gbasis/evals/_deriv.py', 'gbasis/contractions.py', 'gbasis/spherical.py', 'gbasis/utils.py', 'gbasis/base.py', 'gbasis/base_one.py', 'gbasis/base_two_symm.py', 'gbasis/base_two_asymm.py', 'gbasis/base_four_symm.py'], "the property holds for every call, also after a shell's parameters were changed through its setters")
     R.rule("PITFALL", "no result buffer typed after an input, no real cast of a transformation, no unbuffered accumulation / first-occurrence scatter through np.unique")
     from ..pitfalls import report as _pitfalls
     _pitfalls(repo, R, ['gbasis.evals.eval', 'gbasis.evals.eval_deriv', 'gbasis.evals._deriv'])
